@@ -82,6 +82,7 @@ def r1_numbering(ctx, rule="R1"):
             ctx.broken(rule + ": the line list %r is assigned %d times - idiom not understood" % (seq.id, len(defs)))
             return
         seq_expr = defs[0].value
+    lead_drop = None
     split_ok, why = False, "the file is not split into physical lines with split('\\n'): `%s`" % U(seq_expr)[:80]
     if (isinstance(seq_expr, ast.Call) and isinstance(seq_expr.func, ast.Attribute) and seq_expr.func.attr == "split"
             and len(seq_expr.args) == 1 and isinstance(seq_expr.args[0], ast.Constant) and seq_expr.args[0].value == "\n"):
@@ -92,8 +93,17 @@ def r1_numbering(ctx, rule="R1"):
               and U(recv.func.value) == content):
             split_ok = True     # removing trailing characters does not move any line
         else:
-            why = ("the text is rewritten before it is split (`%s`): removing or merging leading lines shifts every line number"
-                   % U(recv)[:80])
+            # leading line feeds dropped before the split: every dropped one is a physical line, so the numbering must add
+            # their count, len(text) - len(text.lstrip("\n"))
+            r2 = C.flow_of(f).subst(recv)
+            while isinstance(r2, ast.Call) and isinstance(r2.func, ast.Attribute) and r2.func.attr == "rstrip":
+                r2 = r2.func.value
+            if (isinstance(r2, ast.Call) and isinstance(r2.func, ast.Attribute) and r2.func.attr in ("lstrip", "strip") and len(r2.args) == 1
+                    and isinstance(r2.args[0], ast.Constant) and r2.args[0].value == "\n" and U(r2.func.value) == content):
+                split_ok, lead_drop = True, "%s.lstrip('\\n')" % content
+            else:
+                why = ("the text is rewritten before it is split (`%s`): removing or merging leading lines shifts every line number"
+                       % U(recv)[:80])
     # a way of cutting the text that the rule does not know (a helper that was not expanded, a hand-written scanner) is not
     # understood; the idioms known to cut elsewhere than at line feeds are violations
     known_other = isinstance(seq_expr, ast.Call) and isinstance(seq_expr.func, ast.Attribute) and (
@@ -151,6 +161,23 @@ def r1_numbering(ctx, rule="R1"):
         want[start] = want.get(start, 0) + 1
         want[1] = want.get(1, 0) + 1
     norm = lambda m: {k: v for k, v in m.items() if v != 0}
+    if lead_drop is not None:
+        # compare with every local replaced by its definition: number = index + 1 + start_line + (dropped leading line feeds)
+        fl_ = C.flow_of(f)
+        def _expand(m):
+            out_ = {}
+            for k_, v_ in m.items():
+                sub_ = {k_: 1}
+                if isinstance(k_, str) and k_.isidentifier() and k_ not in (start, "<idx>"):
+                    ds_ = [a_ for a_ in C.assigns_to(f.node, k_) if isinstance(a_, ast.Assign)]
+                    if len(ds_) == 1 and not C.in_subtree(ds_[0], loop):
+                        sub_ = C.affine(fl_.subst(ds_[0].value))
+                for kk_, vv_ in sub_.items():
+                    out_[kk_] = out_.get(kk_, 0) + v_ * vv_
+            return out_
+        numaff, want = _expand(numaff), _expand(want)
+        want["len(%s)" % content] = want.get("len(%s)" % content, 0) + 1
+        want["len(%s)" % lead_drop] = want.get("len(%s)" % lead_drop, 0) - 1
     ctx.check(norm(numaff) == norm(want) and U(C.arg_of(call, 0, "line")) == line, rule, "parse_line(line, index + 1 + start_line)",
               f.where(call), "the line number handed to parse_line is `%s`: it must be the 1-based position of the physical line "
               "(+ start_line); derived %s, required %s" % (U(num), norm(numaff), norm(want)), f.qname, "line number expression")
